@@ -1,5 +1,6 @@
 import RscelModel.Model.Conv
 import RscelModel.Model.Lex
+import RscelModel.Model.Json
 /-
 Line protocol: textual encoding of values / instructions shared with the Rust harness.
 Tokens are space separated.
@@ -287,6 +288,34 @@ def parseEnv : List String → Option (Env × List String)
     | [] => none
   | [] => none
 
+def parseSrc : List String → Option ((Str × Str) × List String)
+  | k :: h :: ts => do
+    let key ← strOfHex k
+    let src ← strOfHex h
+    pure ((key, src), ts)
+  | _ => none
+
+/-- `P:<n> (key val)* S:<n> (name hexsrc)* U:<n> (name kind)*`: programs given as source text and
+    compiled by `comp` in the order given (`add_program_str`: a failing source adds nothing, a later
+    program of the same name replaces the earlier one). -/
+def parseSrcEnv (comp : Str → Option (List Instr)) : List String → Option (Env × List String)
+  | p :: ts => do
+    let np ← countOf "P" p
+    let (params, ts) ← parseMany parseParam np ts
+    match ts with
+    | g :: ts => do
+      let ng ← countOf "S" g
+      let (srcs, ts) ← parseMany parseSrc ng ts
+      match ts with
+      | u :: ts => do
+        let nu ← countOf "U" u
+        let (users, ts) ← parseMany parseUser nu ts
+        let progs := srcs.filterMap fun (k, src) => (comp src).map fun c => (k, c)
+        pure ({ params := params.reverse, progs := progs.reverse, userFns := users.reverse }, ts)
+      | [] => none
+    | [] => none
+  | [] => none
+
 def showLog (l : Log) : String :=
   String.intercalate " " (s!"L:{l.length}" :: l.map fun e =>
     s!"{hexOfStr e.name} {showVal e.this} {showVal (.list e.args)}")
@@ -352,5 +381,43 @@ def parseExt : List String → Option (ExtTable × List String)
     let n ← countOf "X" x
     parseMany parseExtEntry n ts
   | [] => none
+
+/- JSON documents: `jn` `jb:0|1` `jp:<nat>` `jm:<int>` `jf:<16 hex>` `js:<hex>` `ja:<n> v..` `jo:<n> (<hexkey> v)..` -/
+mutual
+partial def parseJson : List String → Option (Json × List String)
+  | [] => none
+  | t :: rest =>
+    let (tag, p) := splitTag t
+    match tag with
+    | "jn" => some (.null, rest)
+    | "jb" => some (.bool (p == "1"), rest)
+    | "jp" => do let n ← p.toNat?; pure (.num (.pos n), rest)
+    | "jm" => do let i ← p.toInt?; pure (.num (.neg i), rest)
+    | "jf" => do let n ← natOfHex p; pure (.num (.float (UInt64.ofNat n)), rest)
+    | "js" => do let s ← strOfHex p; pure (.str s, rest)
+    | "ja" => do
+        let n ← p.toNat?
+        let (vs, rest) ← parseJsons n rest
+        pure (.arr vs, rest)
+    | "jo" => do
+        let n ← p.toNat?
+        let (es, rest) ← parseJsonMembers n rest
+        pure (.obj es, rest)
+    | _ => none
+partial def parseJsons : Nat → List String → Option (List Json × List String)
+  | 0, ts => some ([], ts)
+  | n + 1, ts => do
+    let (v, ts) ← parseJson ts
+    let (vs, ts) ← parseJsons n ts
+    pure (v :: vs, ts)
+partial def parseJsonMembers : Nat → List String → Option (List (Str × Json) × List String)
+  | 0, ts => some ([], ts)
+  | n + 1, k :: ts => do
+    let key ← strOfHex k
+    let (v, ts) ← parseJson ts
+    let (es, ts) ← parseJsonMembers n ts
+    pure ((key, v) :: es, ts)
+  | _, [] => none
+end
 
 end Rscel.Wire
